@@ -107,6 +107,18 @@ func registerIntrinsics(p *Program) {
 		e.observes = append(e.observes, observation{name: name, terms: ts})
 		return nil
 	}
+	I[sp+"InterfereMonotonicU64"] = func(e *Exec, fr *frame, args []Value) Value {
+		ptr := args[0].(Pointer)
+		l := ptr.loc
+		for l.kids != nil {
+			l = l.kids[len(l.kids)-1]
+		}
+		if e.interf == nil {
+			e.interf = map[*Loc]bool{}
+		}
+		e.interf[l] = true
+		return nil
+	}
 	I[sp+"B2U"] = func(e *Exec, fr *frame, args []Value) Value {
 		return e.ts.BoolToBV(args[0].(*Term), 64)
 	}
